@@ -24,7 +24,15 @@
 (* documents wrap as "reads the data in-place"; the contract therefore     *)
 (* speaks about a view from its creation until ANOTHER view writes to the  *)
 (* same region.  Such a foreign write clears `fresh` of the sibling views; *)
-(* every action requires its operands to be fresh (drivers re-wrap).       *)
+(* every action requires its operands to be fresh (drivers re-wrap) -      *)
+(* EXCEPT plain update(): a stale writable view may keep inserting (one    *)
+(* writer that is not re-wrapped while another view reset / combined the   *)
+(* region).  Its effect on the region is fully specified (bits and ins     *)
+(* grow), nothing is claimed about the stale view's own later answers,     *)
+(* and every view created LATER must see the item.  query_and_update and   *)
+(* the set operations through a stale view stay excluded: they write the   *)
+(* caller-visible count from the object's cached count, which is a         *)
+(* coherence limitation of the class for several concurrent writers.       *)
 (*                                                                         *)
 (* `out` is the observable result of the last call, so that refinement     *)
 (* (BloomDesign) compares answers, not only states.  Everything the        *)
@@ -91,9 +99,10 @@ InitMem(f, m, c) ==
   /\ mem' = (m :> Image(c, FALSE, {}, {})) @@ mem
   /\ flt' = (f :> View(m, c, FALSE)) @@ flt
   /\ out' = Ok
-\* update(item): o = "throw" exactly for a read-only view
+\* update(item): o = "throw" exactly for a read-only view.  Also specified through a STALE view (see header): the
+\* region gains the item, the writer stays stale, every other view of the region becomes stale
 Update(f, x, o) ==
-  /\ Fresh(f) /\ ValidItem(Cfg(f), x)
+  /\ f \in Live /\ ValidItem(Cfg(f), x)
   /\ IF Refused(f) THEN o = "throw" /\ Throw
      ELSE o = "ok" /\ Write(f, Bits(f) \cup x, Ins(f) \cup {x}) /\ out' = Ok
 \* query_and_update(item): a = membership in the PRE-state
